@@ -171,6 +171,8 @@ def decide_and_report(pid: str, tier: str, seed: int, t0: float, level: str, ob:
         "known_findings_seen": known_hit, "distribution": run.get("distribution", {}),
         "exhaustive": bool(run.get("exhaustive", False)),
     }
+    if "leanchecker" in ob:
+        cov["leanchecker"] = ob["leanchecker"]
     if level != "proof":
         cov["programs"] = run.get("evaluations", 0)
         cov["disagreements_checked"] = run.get("n_disagreements", 0)
